@@ -102,6 +102,14 @@ theorem match_sound_rules (cands : List Cand) (s : SR) (hc : s.count ≠ some 0)
   rw [fact_cfg_fixed] at h ⊢
   exact sr_rule_ok Cfg.fixed rfl rfl rfl cands s hc l h
 
+/-- the hypothesis `count ≠ some 0` is what the schema guarantees (`SR.wf` is printed by the model for every accepted
+    definition and compared with the schema validator's verdict; bounds pinned by `fact_sr_schema`) -/
+theorem wf_count_pos (s : SR) (h : SR.wf s = true) : s.count ≠ some 0 := by
+  obtain ⟨name, rule, count, min, max, frm, nested⟩ := s
+  unfold SR.wf at h
+  simp only [Bool.and_eq_true] at h
+  simpa [SR.count] using h.1.1.2
+
 /-! ### `match_complete_or_error`: an error instead of a partial selection, and only when no complete one exists -/
 
 /-- Without submission requirements (a successful match is never partial: `match_sound`): when `Match` fails, either
